@@ -13,6 +13,7 @@ use proc_macro2::TokenStream;
 use quote::{format_ident, quote};
 
 use super::common::{safe_ident, CodegenGrammar, CodegenRule, CodegenSettings};
+use super::include_rule::check_include_cycles;
 
 impl CodegenGrammar for Grammar {
     fn generate_code(&self, settings: &CodegenSettings) -> Result<TokenStream> {
@@ -20,6 +21,7 @@ impl CodegenGrammar for Grammar {
         let mut all_parsers = TokenStream::new();
         let mut all_impls = TokenStream::new();
         let mut cache_entries = TokenStream::new();
+        check_include_cycles(self)?;
         for rule_entry in &self.rules {
             match rule_entry {
                 Grammar_rules::Rule(rule) => {
